@@ -207,6 +207,64 @@ def r03_2b(ck, F):
                   b.loc(abb, ai))
 
 
+def r03_8(ck, F):
+    ck.rule("R03.8", "no credit request can demand more than the smallest window a peer may legally advertise: the "
+            "`min_req` argument of every CreditUser::request call (the amount the caller insists on before it continues) is "
+            "at most the lower bound that ExchangedCfg::read enforces for port_receive_buffer",
+            "a peer with receive_buffer < min_req (legal: the handshake only demands >= 4): the request can never be "
+            "satisfied, the send / port transfer hangs forever although the receiver is idle and has returned all credit",
+            floor=3)
+    rb = F.body("chmux::msg::ExchangedCfg::read")
+    aggs = list(rb.aggregates("chmux::msg::ExchangedCfg"))
+    if not aggs:
+        raise mir.AnchorMissing("ExchangedCfg aggregate in ExchangedCfg::read")
+    abb, ai, rv = aggs[0]
+    o = rv["ops"][rv["fields"].index("port_receive_buffer")]
+    src = {c[3] for c in mir.calls_in(rb.expr(o))}
+    window = None
+    for e, m in conds(rb, abb):
+        if m is True and isinstance(e, tuple) and e[0] == "bin" and e[1] == "Ge" and {c[3] for c in mir.calls_in(e[2])} & src:
+            k = const_value(e[3])
+            if k is not None and (window is None or k > window):
+                window = k
+    if window is None:
+        raise mir.AnchorMissing("lower bound of port_receive_buffer in ExchangedCfg::read")
+    n = 0
+    for b in F.by_dp.values():
+        if b.crate != "remoc":
+            continue
+        for k, (bb, t) in enumerate(b.calls(REQUEST)):
+            n += 1
+            e = mir.strip_casts(b.expr(t["a"][2]))
+            site = f"{fn_short(b.path)}#request{k}-min_req"
+            c = const_value(e)
+            if c is not None:
+                ck.expect(c <= window, site, f"min_req = {c} <= smallest legal window {window}",
+                          f"{fn_short(b.path)} insists on {c} credits, more than the smallest window a peer may advertise ({window})",
+                          b.loc(bb))
+                continue
+            # non-constant: can it exceed the window for a legal configuration / input?
+
+            def leaf(x):
+                if mir.last_field(x) == "chunk_size":
+                    return 16384
+                if x[0] == "call" and x[1].split("::")[-1] == "len":
+                    return 1000
+                if x[0] == "call" and x[1].split("::")[-1] == "available":
+                    return 0
+                return None
+            try:
+                v = term_eval(e, leaf)
+            except Unevaluable as ex:
+                ck.inconclusive(site, f"min_req = {mir.show(e)[:60]} outside the arithmetic fragment ({ex})", b.loc(bb))
+                continue
+            ck.expect(v <= window, site, f"min_req = {mir.show(e)[:50]} stays <= {window}",
+                      f"{fn_short(b.path)} insists on min_req = {mir.show(e)[:80]}, which is {v} for chunk_size = 16384 and 1000 "
+                      f"pending elements: more than the smallest legal window ({window}); against such a peer the request never "
+                      f"completes", b.loc(bb))
+    ck.expect(n >= 3, "request#sites", f"{n} CreditUser::request call sites", f"only {n} call sites of CreditUser::request found", None)
+
+
 def r03_3(ck, F):
     ck.rule("R03.3", "AssignedCredits has a Drop impl whose body adds self.port to the pool's credits",
             "a send that fails or is cancelled after requesting credit: the unused credit is lost", floor=1)
@@ -378,5 +436,5 @@ def r03_7(ck, F):
 
 
 def run(ck, F):
-    for r in (r03_1, r03_1b, r03_2, r03_2b, r03_3, r03_4, r03_5, r03_6, r03_7):
+    for r in (r03_1, r03_1b, r03_2, r03_2b, r03_3, r03_4, r03_5, r03_6, r03_7, r03_8):
         ck.run_rule(r)
